@@ -25,7 +25,10 @@ PROOFS = ["proofs/RaceProofs.v", "proofs/RaceHBProofs.v", "lib/Race.v", "lib/Rac
           "models/RaceCache.v", "proofs/RaceCacheMon.v", "proofs/RaceCacheStruct.v", "proofs/RaceCacheInv.v",
           "proofs/RaceCacheGen.v", "proofs/RaceCacheCases.v", "proofs/RaceCacheProofs.v",
           # ants task / taskx callback task: labelled result-publication protocols (any attempts, late handlers)
-          "models/RaceTasks.v", "proofs/RaceTasksProofs.v"]
+          "models/RaceTasks.v", "proofs/RaceTasksProofs.v",
+          # Flag / AddIf64 (Atomics.v, stepped by C17) and loom.Mutex (MutexWord.v mx_step) labelled
+          "models/RaceAtomics.v", "proofs/RaceAtomicsProofs.v",
+          "models/RaceMutex.v", "proofs/RaceMutexProofs.v"]
 
 
 def coq_table():
